@@ -9,6 +9,7 @@ T2: real Sharder / QueryRouter (harness bin `router`) vs the generated model eva
 import hashlib, json, os, struct, subprocess, sys
 import vlib
 from props import routerlib as RL
+from props import wirelib as W
 
 M32, M64 = (1 << 32) - 1, (1 << 64) - 1
 COQ_FILES = ["Common/RustInt.v", "Shard/PgSpec.v", "Shard/HashProofs.v", "Shard/Paths.v",
@@ -211,6 +212,10 @@ def check(run):
     if not run.violations:
         evals += check_paths(run, router, keys, quick, samples, distinct)
 
+    # 4d. wire level: the selected shard decides which backend executes; SET SHARD range check and restore
+    if not run.violations:
+        evals += check_wire(run, keys, quick, samples, distinct)
+
     run.cov["evaluations"] = evals
     run.cov["distinct_nontrivial"] = len(distinct)
     run.cov["rule"] = ("keys: %d boundary values (0, +-1, +-2^31, +-2^32, 2^63-1, -2^63, ...), the 50 PostgreSQL-derived vectors of the repo test, %d seeded random keys of mixed widths; "
@@ -382,6 +387,99 @@ def check_paths(run, router, keys, quick, samples, distinct):
                 return evals
     samples.append({"kind": "spelling", "text": spell[2].decode(), "model": vals[2]})
     return evals
+
+
+def check_wire(run, keys, quick, samples, distinct):
+    """pgcat in-process with 3 shards (one mock backend each, plus a replica on shard 1): every
+    tagged statement must be executed by a backend of the shard the model's sticky state selects."""
+    ok, blog, bins = vlib.cargo_build(["wire"])
+    if not ok:
+        run.violation("tie-broken", "wire harness does not build against /repo", {"correspondence": "wire harness build", "log": blog[-3000:]}, found_input=False)
+        return 0
+    wire = bins["wire"]
+    nsh = 3
+    toml = W.make_toml(pools={"db": {"opts": {"query_parser_enabled": True, "query_parser_read_write_splitting": True, "automatic_sharding_key": "data.id",
+                                                "sharding_function": "pg_bigint_hash", "default_role": "any", "primary_reads_enabled": True},
+                                       "users": [{"pool_size": 2}],
+                                       "shards": [{"servers": [["s0", "primary"]]}, {"servers": [["s1", "primary"], ["s1r", "replica"]]}, {"servers": [["s2", "primary"]]}]}})
+    backends = [{"name": n} for n in ("s0", "s1", "s1r", "s2")]
+    shard_of_backend = {"s0": 0, "s1": 1, "s1r": 1, "s2": 2}
+    r = run.rng
+    scns, metas = [], []
+    for t in range(24 if quick else 300):
+        steps = [{"op": "connect", "c": "c1", "params": {"user": "u", "database": "db"}, "password": "pw"}]
+        cur = None          # model: sticky selection (Paths.set_shard / SET SHARDING KEY / literal)
+        expect = []         # (tag, expected shard or None)
+        for i in range(r.randint(3, 7)):
+            k = r.random()
+            tag = "t%d_%d" % (t, i)
+            if k < 0.25:
+                v = r.choice([0, 1, 2, 3, 7, 99999999999999999999999])
+                steps += [{"op": "send", "c": "c1", "msgs": [{"t": "Q", "sql": "SET SHARD TO '%d'" % v}]}, {"op": "recv", "c": "c1", "label": "setshard:%d" % v}]
+                if v < nsh:
+                    cur = v
+                expect.append(("setshard", v, cur))
+            elif k < 0.45:
+                key = r.choice(keys[:200])
+                if key < 0:
+                    key = -key
+                key = min(key, 2**63 - 1)
+                steps += [{"op": "send", "c": "c1", "msgs": [{"t": "Q", "sql": "SET SHARDING KEY TO '%d'" % key}]}, {"op": "recv", "c": "c1"}]
+                cur = pg_partition(key, nsh)
+                expect.append(("setkey", key, cur))
+            elif k < 0.6:
+                steps += [{"op": "send", "c": "c1", "msgs": [{"t": "Q", "sql": "SHOW SHARD"}]}, {"op": "recv", "c": "c1", "label": "show"}]
+                expect.append(("show", None, cur))
+            elif k < 0.8:
+                key = r.choice(keys[:200])
+                key = min(abs(key), 2**63 - 1)
+                steps += [{"op": "send", "c": "c1", "msgs": [{"t": "Q", "sql": "SELECT * FROM data WHERE id = %d /*%s*/" % (key, tag)}]}, {"op": "recv", "c": "c1"}]
+                cur = pg_partition(key, nsh)
+                expect.append(("stmt", tag, cur))
+            else:
+                steps += [{"op": "send", "c": "c1", "msgs": [{"t": "Q", "sql": "SELECT 1 /*%s*/" % tag}]}, {"op": "recv", "c": "c1"}]
+                expect.append(("stmt", tag, cur if cur is not None else 0))   # default_shard = shard_0
+        scns.append({"backends": backends, "toml": toml, "steps": steps})
+        metas.append(expect)
+    results = W.run_scenarios(wire, scns, timeout=60)
+    n = 0
+    for scn, expect, res in zip(scns, metas, results):
+        if "harness_error" in res or "start_error" in res:
+            run.broken.append("wire harness failed: %s" % (res.get("harness_error") or res.get("start_error")))
+            continue
+        where = {}
+        for e in W.backend_msgs(res):
+            sql = e["detail"].get("sql") or ""
+            if "/*t" in sql:
+                where[sql[sql.index("/*t") + 2:sql.index("*/", sql.index("/*t"))]] = e["who"]
+            if sql.upper().startswith("SET SHARD") or sql.upper().startswith("SHOW SHARD"):
+                run.violation("counterexample", "custom command forwarded to a server: %r" % sql, {"input": scn["steps"], "backend": e["who"]})
+        recvs = [e for e in res["events"] if e.get("ev") == "recv" and e.get("who") == "c1"]
+        ri = 0
+        for kind, arg, want in expect:
+            n += 1
+            distinct.add(("wire", kind, str(arg), want))
+            fr = recvs[ri]["frames"] if ri < len(recvs) else []
+            ri += 1
+            if kind == "stmt":
+                got = where.get(arg)
+                if got is None or shard_of_backend[got] != want:
+                    run.violation("counterexample", "statement %s executed on backend %r (shard %s), selected shard is %s" % (arg, got, shard_of_backend.get(got), want),
+                                  {"input": {"steps": scn["steps"]}, "expected_shard": want, "impl_backend": got})
+                    return n
+            elif kind == "setshard":
+                is_err = any(f.get("t") == "E" for f in fr)
+                if (arg >= nsh) != is_err:
+                    run.violation("counterexample", "SET SHARD TO %d on %d shards: error reply=%s" % (arg, nsh, is_err), {"input": {"steps": scn["steps"]}, "frames": fr})
+                    return n
+            elif kind == "show":
+                rows = [f["cols"][0] for f in fr if f.get("t") == "D"]
+                wanted = "unset" if want is None else str(want)
+                if rows != [wanted]:
+                    run.violation("counterexample", "SHOW SHARD reports %r, the selection is %s" % (rows, wanted), {"input": {"steps": scn["steps"]}, "frames": fr})
+                    return n
+    samples.append({"kind": "wire", "steps": [s for s in scns[0]["steps"] if s["op"] == "send"][:5]})
+    return n
 
 
 def replay(run, path):
